@@ -6,11 +6,15 @@ pub trait Suite {
 
 pub mod codec;
 pub mod indexfile;
+pub mod distro;
+pub mod sync;
 
 pub fn make(name: &str) -> Option<Box<dyn Suite>> {
     match name {
         "codec" => Some(Box::new(codec::Codec::new())),
         "indexfile" => Some(Box::new(indexfile::IndexFile::new())),
+        "distro" => Some(Box::new(distro::Distro::new())),
+        "sync" => Some(Box::new(sync::Sync::new())),
         _ => None,
     }
 }
